@@ -82,4 +82,11 @@ Meets(sigs, auth, thr, gpg) == Cardinality(Signers(sigs, auth, gpg)) >= thr
 Strip(sigs, auth, gpg) ==
   [n \in Names |-> IF IsCanonName(n) /\ KeyOf(n) \in Signers(sigs, auth, gpg) THEN sigs[n] ELSE Absent]
 
+(* signature map from a logged list of entries [name |-> <<class, index>>, v |-> <<shape, by, over, fr, ok>>] *)
+SigsFromEntries(entries) ==
+  [n \in Names |->
+     LET S == {i \in DOMAIN entries : entries[i].name = n} IN
+     IF S = {} THEN Absent
+     ELSE LET v == entries[CHOOSE i \in S : TRUE].v IN V(v[1], v[2], v[3], v[4], v[5])]
+SeqToSet(s) == {s[i] : i \in DOMAIN s}
 =============================================================================
